@@ -236,9 +236,28 @@ void __gmpz_cdiv_q(mpz_ptr q, mpz_srcptr n, mpz_srcptr d) { MODEL_ASSERT(d->_mp_
 void __gmpz_fdiv_q(mpz_ptr q, mpz_srcptr n, mpz_srcptr d) { MODEL_ASSERT(d->_mp_size != 0, "gmp: mpz_fdiv_q by zero"); q->_mp_size = qsv_nondet_payload(); }
 
 /* ------------------------------------------------------------------ mpf (opaque payload in _mp_size) */
-void __gmpf_init(mpf_ptr a) { a->_mp_size = 0; a->_mp_prec = 1; a->_mp_exp = 0; a->_mp_d = 0; }
-void __gmpf_init2(mpf_ptr a, mp_bitcnt_t p) { a->_mp_size = 0; a->_mp_prec = 1; a->_mp_exp = 0; a->_mp_d = 0; }
-void __gmpf_clear(mpf_ptr a) { }
+/* TOKENS: an initialised mpf number owns a heap token, too (mpf_init allocates its limbs at once in the real library) */
+static void ftok_init(mpf_ptr a)
+{
+#ifdef QSV_GMP_TOKENS
+	a->_mp_d = malloc(1);
+#ifdef QSV_CBMC
+	__CPROVER_assume(a->_mp_d != 0);
+#endif
+	qsv_gmp_live++;
+#else
+	a->_mp_d = 0;
+#endif
+}
+void __gmpf_init(mpf_ptr a) { a->_mp_size = 0; a->_mp_prec = 1; a->_mp_exp = 0; ftok_init(a); }
+void __gmpf_init2(mpf_ptr a, mp_bitcnt_t p) { a->_mp_size = 0; a->_mp_prec = 1; a->_mp_exp = 0; ftok_init(a); }
+void __gmpf_clear(mpf_ptr a)
+{
+#ifdef QSV_GMP_TOKENS
+	free(a->_mp_d); a->_mp_d = 0; qsv_gmp_live--;
+#endif
+}
+int __gmpf_cmp_ui(mpf_srcptr a, unsigned long v) { return a->_mp_size < (int) v ? -1 : a->_mp_size > (int) v; }
 void __gmpf_set(mpf_ptr a, mpf_srcptr b) { a->_mp_size = b->_mp_size; }
 void __gmpf_set_q(mpf_ptr a, mpq_srcptr b) { a->_mp_size = b->_mp_num._mp_size; }
 void __gmpf_set_ui(mpf_ptr a, unsigned long v) { a->_mp_size = (int) v; }
